@@ -445,6 +445,16 @@ pub fn write_replay(prop: &str, lane: &str, fail: &Fail, case: &Value, seed: u64
 /// Run a whole property: regress files first, then every lane on `workers` threads.
 pub fn run_property(p: &Property, tier: Tier, seed: u64, only_lane: Option<&str>) -> RunResult {
     let t0 = Instant::now();
+    // wall-clock guard: a run that takes absurdly long is inconclusive (exit 2), never a violation
+    {
+        let limit = std::env::var("VERIF_WALL_LIMIT_S").ok().and_then(|s| s.parse::<u64>().ok()).unwrap_or(tier.pick(900, 4 * 3600));
+        let id = p.id;
+        std::thread::spawn(move || {
+            std::thread::sleep(std::time::Duration::from_secs(limit));
+            println!("INCONCLUSIVE: property={} wall-clock guard of {} s hit (a check is stuck in real time); no verdict", id, limit);
+            std::process::exit(2);
+        });
+    }
     let known = load_known(p.id);
     let mut violations: Vec<(String, Fail, Value)> = Vec::new();
     let mut lane_reports: Vec<LaneReport> = Vec::new();
